@@ -32,6 +32,9 @@ type connRun struct {
 
 	lastRecv atomic.Int64 // unix nanos of the last bytes read by a slow reader
 
+	sent     atomic.Int32 // requests whose send has been logged (incremented before the first byte is written)
+	atOrigin map[int]bool // under mu: the request indices the origin has seen (stray.go)
+
 	mu      sync.Mutex
 	reqs    int  // requests sent
 	closed  bool // proxy-side closure observed (x logged)
@@ -154,6 +157,7 @@ func (c *connRun) dial(late bool) bool {
 		tc.SetReadBuffer(32 << 10)
 	}
 	cr.log.Fill(ph, "c", c.k, cr.c.TLS)
+	cr.noteDial(conn.LocalAddr().String())
 	if cr.tracker != nil {
 		cr.tracker.bind(conn.LocalAddr().String(), c.k) // what is scripted for the proxy's end of this socket
 	}
@@ -178,6 +182,7 @@ func (c *connRun) lateDial() bool {
 		cr.log.Add("r", c.k)
 		return false
 	}
+	cr.noteDial(conn.LocalAddr().String())
 	defer func() {
 		if c.cl == nil {
 			conn.Close()
@@ -199,6 +204,7 @@ func (c *connRun) lateDial() bool {
 		rw = tc
 	}
 	phS := cr.log.Reserve()
+	c.sent.Add(1)
 	rw.Write(c.requestBytes(false, false))
 	select {
 	case <-c.originCh:
@@ -287,12 +293,14 @@ func (c *connRun) send(connect, reqClose bool, part int, b []byte) {
 	case 0:
 		c.cr.log.Add("s", c.k, connect, reqClose, connect && c.autoConnect())
 		c.reqs++
+		c.sent.Add(1)
 	case 1:
 		c.cr.log.Add("p", c.k)
 		b = b[:half]
 	case 2:
 		c.cr.log.Add("s", c.k, connect, reqClose)
 		c.reqs++
+		c.sent.Add(1)
 		b = b[half:]
 	}
 	c.cl.Conn.SetWriteDeadline(time.Now().Add(5 * time.Second))
@@ -530,6 +538,16 @@ func (c *connRun) run() {
 			c.afterResponse(cl)
 		}
 		return
+	}
+	if sc.AcceptHeld {
+		// made once every other script is where it should be; the listener keeps the Accept that delivers it from
+		// returning until closing is known (held.go)
+		c.markReady()
+		select {
+		case <-cr.holdGo:
+		case <-cr.finished:
+			return
+		}
 	}
 	if !c.dial(false) {
 		return
